@@ -617,10 +617,14 @@ func (o *oracles) cpuOptedOut(y *rCtr) bool {
 
 func (o *oracles) balloonsPreserveRule(y *rCtr) bool {
 	w := o.w
-	if w.cfg.Policy != "balloons" || w.cfg.Balloons == nil || w.cfg.Balloons.PreserveLabel == "" {
+	if w.cfg.Policy != "balloons" || w.cfg.Balloons == nil {
 		return false
 	}
-	return y.pod.spec.Labels["app"] == w.cfg.Balloons.PreserveLabel
+	b := w.cfg.Balloons
+	if b.PreserveLabel != "" && y.pod.spec.Labels["app"] == b.PreserveLabel {
+		return true
+	}
+	return b.PreserveName != "" && y.spec.Name == b.PreserveName
 }
 
 func (o *oracles) memOptedOut(y *rCtr) bool {
